@@ -46,6 +46,6 @@ Next == Roll \/ Push \/ New
 IndInv == /\ rolls \in 0..(K - 1) /\ n \in 0..NMAX
           /\ a >= 0 /\ a <= M + rolls * (M + 255)
           /\ b >= 0 /\ b <= M + rolls * (M * NMAX + AMAX)
-IndInit == IndInv
+IndInit == /\ rolls \in 0..(K - 1) /\ n \in 0..NMAX /\ a \in Nat /\ b \in Nat /\ IndInv
 NoOverflow == a < TWO64 /\ b < TWO64 /\ a + M + 255 < TWO64 /\ b + M * NMAX + AMAX < TWO64
 =============================================================================
